@@ -153,3 +153,51 @@ func genLoop(g *Gen, n int) {
 		g.Emit("fleet/"+class, genFleetScript(g, 1+g.R.Intn(3), native, 20+g.R.Intn(40), g.R.Intn(3) == 0, false)...)
 	}
 }
+
+// genLoopOnce (C16, run-once mode): publishers fill the bucket, then an instance started with
+// only_once runs until it ends by itself; after every segment the oracle checks that it did not
+// end before it had merged the newest snapshot each other instance had at its start-up.
+func genLoopOnce(g *Gen, n int) {
+	count := n / 20
+	if count < 10 {
+		count = 10
+	}
+	for i := 0; i < count; i++ {
+		native := g.R.Intn(2) == 0
+		class := map[bool]string{true: "native", false: "shadow"}[native]
+		f := &fleetGen{r: g.R, native: native, started: map[string]bool{}}
+		f.lines = append(f.lines, "fleet.reset")
+		pubs := []string{"a", "b", "c"}[:1+g.R.Intn(3)]
+		for _, id := range pubs {
+			f.lines = append(f.lines, fmt.Sprintf("loop.new %s %s 0 0 0 0 3", id, b2s(native)))
+			f.lines = append(f.lines, fmt.Sprintf("loop.app %s %s", id, f.appOpsFor(id, true)))
+		}
+		// the publishers run for a while (some publish more than one snapshot)
+		for s := 0; s < 10+g.R.Intn(25); s++ {
+			id := pubs[g.R.Intn(len(pubs))]
+			if g.R.Intn(5) == 0 {
+				f.lines = append(f.lines, fmt.Sprintf("loop.app %s %s", id, f.appOpsFor(id, false)))
+			} else {
+				f.lines = append(f.lines, fmt.Sprintf("loop.go %s ? 0 %d", id, f.now()))
+			}
+		}
+		f.lines = append(f.lines, fmt.Sprintf("loop.new z %s 0 0 0 1 3", b2s(native)))
+		if g.R.Intn(2) == 0 {
+			f.lines = append(f.lines, fmt.Sprintf("loop.app z %s", f.appOpsFor("z", true)))
+		}
+		for s := 0; s < 45; s++ {
+			if g.R.Intn(6) == 0 {
+				// the others keep going meanwhile
+				id := pubs[g.R.Intn(len(pubs))]
+				if g.R.Intn(3) == 0 {
+					f.lines = append(f.lines, fmt.Sprintf("loop.app %s %s", id, f.appOpsFor(id, false)))
+				} else {
+					f.lines = append(f.lines, fmt.Sprintf("loop.go %s ? 0 %d", id, f.now()))
+				}
+				continue
+			}
+			f.lines = append(f.lines, fmt.Sprintf("loop.go z ? 0 %d", f.now()), "prop.c16.once z")
+		}
+		g.Emit("run-once/"+class, f.lines...)
+	}
+}
